@@ -397,6 +397,137 @@ func TestVerifWiringC08(t *testing.T) {
 		}})
 }
 
+// ---- C08: a backend connection that breaks in the middle of an upload -------------------------------
+
+type uploadScript struct {
+	ALPN    string `json:"alpn"`
+	Method  string `json:"method"`
+	BodyLen int    `json:"body_len"`
+	Chunked bool   `json:"chunked"` // no declared length (HTTP/1.1 chunked, HTTP/2 without content-length)
+	Pieces  []int  `json:"pieces,omitempty"`
+	// the backend side of the first Broken connections the proxy opens fails its BreakAt-th read (and every later
+	// one): the backend dies, restarts or resets the connection while the request body is on its way
+	Broken  int `json:"broken"`
+	BreakAt int `json:"break_at"`
+	Second  bool `json:"second"` // a second, small request on the same client connection afterwards
+}
+
+var colC08u = vstat.New("C08", "c08.wiring-upload")
+
+func TestVerifWiringC08Upload(t *testing.T) {
+	rig.Certs()
+	mkBody := func(n int) []byte {
+		b := make([]byte, n)
+		for i := range b {
+			b[i] = byte('a' + (i/7+i*i)%23)
+		}
+		return b
+	}
+	vstat.Run(t, vstat.Spec[uploadScript]{Col: colC08u, Quick: 150, Thorough: 1500,
+		Gen: func(t *rapid.T) uploadScript {
+			s := uploadScript{ALPN: rapid.SampledFrom([]string{"h2", "http/1.1"}).Draw(t, "alpn"), Method: rapid.SampledFrom([]string{"POST", "PUT", "PATCH"}).Draw(t, "m"),
+				BodyLen: rapid.SampledFrom([]int{5000, 40000, 100000, 200000}).Draw(t, "len"), Chunked: rapid.IntRange(0, 2).Draw(t, "chunked") != 0,
+				Broken: rapid.SampledFrom([]int{0, 1, 1, 1, 2}).Draw(t, "broken"), BreakAt: rapid.IntRange(1, 8).Draw(t, "at"), Second: rapid.Bool().Draw(t, "second")}
+			if rapid.Bool().Draw(t, "pieces") {
+				s.Pieces = rapid.SliceOfN(rapid.SampledFrom([]int{100, 4096, 16384}), 1, 3).Draw(t, "pcs")
+			}
+			return s
+		},
+		Exec: func(s uploadScript) *vstat.Violation {
+			var ex, ex2 rig.Exchange
+			var reqs []*rig.Recorded
+			var fail string
+			body := mkBody(s.BodyLen)
+			msg := rig.Bubble(t, func() {
+				p := rig.StartProxy(rig.ProxyOpts{Build: func(ctx context.Context, b *rig.Backend) *proxyserver.Server {
+					b.DialHooks = func(k int) *rig.Hooks {
+						if k > s.Broken {
+							return nil
+						}
+						return &rig.Hooks{OnOp: func(kind string, idx int) error {
+							if kind == "Read" && idx >= s.BreakAt {
+								return io.ErrUnexpectedEOF
+							}
+							return nil
+						}}
+					}
+					return wired(nil)(ctx, b)
+				}, BackendRespond: func(w http.ResponseWriter, r *http.Request, rec *rig.Recorded) {
+					if rec.BodyErr != "" {
+						panic(http.ErrAbortHandler) // the connection is gone; there is nobody to answer
+					}
+					w.Header().Set("X-Got", fmt.Sprint(len(rec.Body)))
+					w.Write([]byte("stored"))
+				}})
+				defer p.Stop()
+				cc, err := rig.Connect(p, []string{s.ALPN}, nil)
+				if err != nil {
+					fail = err.Error()
+					return
+				}
+				defer cc.Close()
+				ex = cc.Do(rig.ReqSpec{Method: s.Method, Path: "/upload/1", Authority: "client.example", Headers: [][2]string{{"User-Agent", "x"}}, Body: body, Chunked: s.Chunked, DeclareLength: !s.Chunked, Pieces: s.Pieces})
+				rig.Wait()
+				if s.Second && ex.Err == "" {
+					ex2 = cc.Do(rig.ReqSpec{Method: "POST", Path: "/upload/2", Authority: "client.example", Headers: [][2]string{{"User-Agent", "x"}}, Body: body[:100], DeclareLength: true})
+					rig.Wait()
+				}
+				reqs = p.Backend.Requests()
+			})
+			if msg != "" || fail != "" {
+				colC08u.Discard()
+				return nil
+			}
+			// whatever the backend received as a complete request carries the bytes the client sent
+			complete := 0
+			for _, r := range reqs {
+				if r.BodyErr != "" {
+					continue
+				}
+				want := body
+				if r.RequestURI == "/upload/2" {
+					want = body[:100]
+				} else {
+					complete++
+				}
+				if r.Method == "" || string(r.Body) != string(want) {
+					return vstat.Violf("wiring:upload|body-altered-after-backend-connection-broke", "%+v: the backend received a complete %s %s whose body has %d octets (first difference at %d); the client sent %d", s, r.Method, r.RequestURI, len(r.Body), firstDiffW(r.Body, want), len(want))
+				}
+			}
+			if complete > 1 {
+				return vstat.Violf("wiring:upload|request-delivered-twice", "%+v: the backend received the upload %d times as a complete request", s, complete)
+			}
+			if ex.Err == "" && ex.Status == 200 && complete == 0 {
+				return vstat.Violf("wiring:upload|success-without-delivery", "%+v: the client was answered 200 but the backend never received the complete request", s)
+			}
+			if s.Broken == 0 && (ex.Err != "" || ex.Status != 200 || string(ex.Body) != "stored") {
+				return vstat.Violf("wiring:upload|undisturbed-upload-failed", "%+v: status %d, error %q", s, ex.Status, ex.Err)
+			}
+			if s.Second && ex.Err == "" && ex2.Err == "" && ex2.Status == 200 && string(ex2.Body) != "stored" {
+				return vstat.Violf("wiring:upload|second-response-altered", "%+v: second request answered with %q", s, ex2.Body)
+			}
+			outcome := fmt.Sprintf("client-saw:%d", ex.Status)
+			if ex.Err != "" {
+				outcome = "client-saw:error"
+			}
+			cls := []string{"alpn:" + s.ALPN, fmt.Sprintf("broken-backend-connections:%d", s.Broken), outcome, fmt.Sprintf("declared-length:%v", !s.Chunked)}
+			if s.Broken > 0 && s.Chunked {
+				cls = append(cls, "backend-connection-breaks-during-upload-of-undeclared-length:"+s.ALPN)
+			}
+			colC08u.Case(fmt.Sprintf("%+v", s), s.Broken > 0, s, cls...)
+			return nil
+		}})
+}
+
+func firstDiffW(a, b []byte) int {
+	for i := 0; i < len(a) && i < len(b); i++ {
+		if a[i] != b[i] {
+			return i
+		}
+	}
+	return min(len(a), len(b))
+}
+
 // ---- C14: the binary's TLS configuration serves what the certificate watcher has loaded --------------
 
 type certScript struct {
